@@ -171,6 +171,36 @@ def nested_slice_families(tier):
     return out
 
 
+def select_families(tier):
+    """cohdl.select_with (keys of the selector's type, with and without default, values of one or of mixed widths) and
+    any / all over run-time values (C02: "select_with, any/all")"""
+    a, b, c = ref("a"), ref("b"), ref("c")
+    out = []
+    for kind in (U, S):
+        for w in (1, 2) if tier == "quick" else (1, 2, 3):
+            t = T(kind, w)
+            lo = 0 if kind == U else -(1 << (w - 1))
+            keys = list(range(lo, lo + (1 << w)))
+            one = pint(1 if (kind == U or w > 1) else -1)          # an integer operand must be representable in the vector's type
+            ex = [(t, select_(a, [(pint(keys[0]), b), (pint(keys[-1]), c)], default=bin_("add", b, one))),
+                  (t, select_(a, [(pint(k), (b if i % 2 else c)) for i, k in enumerate(keys)], default=b)),
+                  (t, select_(a, [(pint(keys[0]), lit(t, 1 if kind == U else -1)), (pint(keys[-1]), c)], default=NULL)),
+                  (T(kind, w + 1), select_(a, [(pint(keys[0]), resize(b, w + 1))], default=bin_("add", resize(c, w + 1), one))),
+                  (BIT, select_(a, [(pint(keys[-1]), bin_("lt", b, c))], default=bin_("eq", b, c)))]
+            out.append((f"sel_{kind}{w}", [("a", t), ("b", t), ("c", t)], ex))
+    tb = T(BV, 2)
+    out.append(("sel_bv2", [("a", tb), ("b", tb), ("c", tb)],
+                [(tb, select_(a, [(strlit("00"), b), (strlit("10"), c)], default=bin_("xor", b, c))),
+                 (tb, select_(a, [(strlit("01"), un("inv", b))], default=FULL))]))
+    x, y, z = ref("x"), ref("y"), ref("z")
+    u2 = T(U, 2)
+    out.append(("anyall", [("x", BIT), ("y", BIT), ("z", BIT), ("a", u2)],
+                [(BIT, any_([x, y, z])), (BIT, all_([x, y, z])), (BIT, any_([x, idx(a, 0), bin_("eq", a, pint(2))])),
+                 (BIT, all_([y, bin_("ne", a, pint(0)), un("inv", z)])), (BIT, any_([a])), (BIT, all_([a, x])),
+                 (BIT, un("not", any_([x, y]))), (BIT, bin_("land", any_([x, y]), all_([y, z])))]))
+    return out
+
+
 def random_trees(rng, n, maxw, depth=3):
     """seeded random well-typed numeric expression trees over ports a,b,c"""
     out = []
@@ -222,5 +252,6 @@ def all_families(tier, rng):
     fams += list(shift_families(maxw, tier))
     fams += list(struct_families(3 if tier == "quick" else 4, tier))
     fams += nested_slice_families(tier)
+    fams += select_families(tier)
     fams += random_trees(rng, 60 if tier == "quick" else 600, 3)
     return fams
